@@ -12,7 +12,7 @@ ANCHORS = ['mpilot/libraries/eems/fuzzy.py:FuzzyXOr.execute', 'mpilot/libraries/
 LEVEL = "exploration"
 RULE = ("every built-in data command x shapes of rank 1-3 incl. length-1 axes x common cell permutation x reshape to another rank; "
         "distinct by (command, n, source shape rank, target rank, has length-1 axis, dtypes, mask class)")
-REQUIRED_COUNTERS = ["shape_postconditions", "permutation_checks", "reshape_checks", "layout_checks"]
+REQUIRED_COUNTERS = ["shape_postconditions", "permutation_checks", "reshape_checks", "layout_checks", "model_reshape_checks"]
 ASSUMPTIONS = ["z-score commands compared with 1e-9 tolerance (float summation order), all others bit-exact on the dyadic lattice",
                "commands raising the same specific error on both sides are not judged"]
 
@@ -44,6 +44,55 @@ def cases(ctx):
         c["perm"] = perm
         c["reshape"] = list(rng.choice(factorisations(n, rng)))
         yield c
+    from mpv import models
+    for i in range(ctx.n(200, 10000)):
+        n = rng.choice([4, 6, 8, 12, 16, 24])
+        fs = factorisations(n, rng)
+        # commands whose whole-array statistics are sums (z-scores, mean-to-mid) are left to the array-level relation above:
+        # the summation order of a float reduction legitimately depends on the rank, and their outputs feed discontinuous
+        # comparisons; every other command must be bit-identical
+        safe = [c for c in cmdgen.ALL if c not in cmdgen.ZSCORE and "MeanToMid" not in c]
+        m = models.gen_model(rng, n_ops=rng.randint(2, 10), sinks=rng.random() < 0.5, libs="nc", table=models.gen_table(rng, shape=(n,)), cmds=safe)
+        m["libs"] = "nc"
+        yield {"kind": "model", "model": m, "shape_a": [n], "shape_b": list(rng.choice([f for f in fs if len(f) > 1]))}
+
+
+def run_model(ctx, case):
+    """The same NetCDF table stored as a vector and as a grid of another rank: every result of the same model must hold
+    the same cells in the same order, in the shape of its inputs."""
+    import copy
+    from mpv import models
+    model = case["model"]
+    variants = []
+    for shape in (case["shape_a"], case["shape_b"]):
+        m = copy.deepcopy(model)
+        m["table"]["shape"] = list(shape)
+        d = ctx.scratch()
+        try:
+            prog = models.load(m, d)
+            prog.run()
+            variants.append((shape, {n: c._result for n, c in prog.commands.items() if isinstance(c._result, numpy.ndarray)}, None))
+        except Exception as e:
+            variants.append((shape, None, e))
+    ctx.count("model_reshape_checks")
+    ctx.feature(("model", len(case["shape_a"]), len(case["shape_b"]), tuple(sorted(set(c["cmd"] for c in model["commands"])))[:5]))
+    (sa, ra, ea), (sb, rb, eb) = variants
+    if (ea is None) != (eb is None) or (ea is not None and type(ea) is not type(eb)):
+        ctx.fail("model:reshape-changes-outcome", {"shape_a": sa, "shape_b": sb, "a": repr(ea)[:200], "b": repr(eb)[:200]})
+        return
+    if ea is not None:
+        ctx.dontcare("model raises %s for both shapes" % type(ea).__name__)
+        return
+    by = {c["result"]: c["cmd"] for c in model["commands"]}
+    for n, a in ra.items():
+        b = rb.get(n)
+        if tuple(a.shape) != tuple(sa) or b is None or tuple(b.shape) != tuple(sb):
+            ctx.fail("%s:shape:in-model" % by.get(n, "?"), {"result": n, "got": [list(a.shape), list(getattr(b, "shape", []))], "want": [list(sa), list(sb)]})
+            return
+        dd = _same(by.get(n, ""), a, b)
+        if dd:
+            ctx.fail("%s:cells-not-independent:reshape:in-model" % by.get(n, "?"), {"result": n, "diff": dd, "shape_a": sa, "shape_b": sb})
+            return
 
 
 def _same(cmd, a, b):
@@ -65,6 +114,8 @@ def _same(cmd, a, b):
 
 
 def run_case(ctx, case):
+    if case.get("kind") == "model":
+        return run_model(ctx, case)
     cmd, params = case["cmd"], case["params"]
     fuzzy_in = cmd in arr.FUZZY_INPUT
     base_specs = case["inputs"]
